@@ -214,7 +214,14 @@ func VictimMain(args []string) {
 			n := int64(atoi(f[1]))
 			run = func() error { return srv.SetRevisionCounter(n) }
 		case "Reload":
-			run = func() error { return srv.Reload() }
+			// Reload turns hole punching on and queues punches for blocks that a newer file shadows; the puncher runs on
+			// its own goroutine.  The operation is taken to include them: wait (inside the window) until the queue is
+			// drained so that the state after the operation does not depend on a race with the victim's exit.
+			run = func() error {
+				err := srv.Reload()
+				replica.VerifFlushHoles()
+				return err
+			}
 		default:
 			fmt.Fprintln(os.Stderr, "victim: unknown op", op)
 			os.Exit(2)
